@@ -142,7 +142,12 @@ class DataCollection:
         # Check if we are currently writing some data
         if self.write_to_disk.is_set():
             while not self.write_finished.wait(0.250):
-                pass
+                # The write thread is the only one that ever sets write_finished
+                if self.use_thread and not self.write_thread.is_alive():
+                    raise DataCollectionThreadError(
+                        "Data collection write thread died while writing to disk. "
+                        "The data on disk is incomplete. Reset the logger."
+                    )
 
         self.write_to_disk.clear()
         self.write_finished.clear()
